@@ -39,21 +39,21 @@ CHECKS = {
  "C17": ("enum/h-enum", "bounded-exhaustive enumeration of event batches against the EnvSummary laws",
          "All batches of <=2 of 440 event shapes (paths x file type x kinds over a universe with shared/disjoint prefixes, prefix-siblings, duplicates): every (event, path, kind) recoverable from its variable, no spurious entries, sorted + deduplicated, COMMON = longest common directory, simple format one line per (kind, path).", "7 C17", ENUM_NOTE),
  "C03": ("enum/h-enum", "bounded-exhaustive enumeration of ignore-file placements, contents, construction orders and read-completion orders against the IgnoreCompose reference model",
-         "One maximal tree with prefix-related sibling names; every placement of <=2 ignore files over 7 sites x a 20-line pattern grammar (negations, rooted, dir-only, **); every construction sequence (new / add_file / add_globs in every order that keeps same-site order, repeated construction) and every read-completion order (FIFO-controlled); 56 probes each through IgnoreFilterer::check_event / check_dir: verdict equals nearest-directory-first git-style composition and is identical across constructions, also when the same files are handed to GlobsetFilterer::new (the CLI's path; built four times per configuration).", "7 C03", ENUM_NOTE),
+         "One maximal tree with prefix-related sibling names; every placement of <=2 ignore files over 7 sites x a 20-line pattern grammar (negations, rooted, dir-only, **), lines repeated after a line of the opposite polarity within and across files of one directory; every construction sequence (new / add_file / add_globs in every order that keeps same-site order, repeated construction) and every read-completion order (FIFO-controlled); 56 probes each through IgnoreFilterer::check_event / check_dir: verdict equals nearest-directory-first git-style composition and is identical across constructions, also when the same files are handed to GlobsetFilterer::new (the CLI's path; built four times per configuration).", "7 C03", ENUM_NOTE),
  "C05": ("dex/h-cli", "stateless exhaustive exploration of the CLI's real action handler (argv -> normalise -> make_config -> Watchexec) with a simulated command; FIFO and LIFO base policies",
-         "All four --on-busy-update modes and the -r / --signal shorthands x {postpone, stop-signal, stop-timeout 0, delay-run, debounce} x 1-3 change events x command reaction, every ENV order of changes / command exit / ticks and every schedule within the deviation bound under both base policies: runs never overlap, first run at start-up unless postponed, change while idle starts a run, do-nothing/queue never touch the running command, signal mode sends exactly the configured signal, restart kills only at the stop timeout, in restart/queue modes a run starts after the last change, and in no mode is a running command's handle dropped (killed without signal or reaping).", "7 C05", DEX_NOTE),
+         "All four --on-busy-update modes and the -r / --signal shorthands x {postpone, stop-signal, stop-timeout 0, delay-run, debounce} x 1-3 change events x command reaction, every ENV order of changes / command exit / ticks and every schedule within the deviation bound under both base policies: runs never overlap, first run at start-up unless postponed, change while idle starts a run, do-nothing/queue never touch the running command, signal mode sends exactly the configured signal, restart kills only at the stop timeout, in restart/queue modes a run starts after the last change, and in no mode is a running command's handle dropped (killed without signal or reaping); also with every change sharing its batch with a signal that is merely forwarded to the command.", "7 C05", DEX_NOTE),
  "C08": ("dex/h-cli", "stateless exhaustive exploration of a whole Watchexec whose scripted action handler creates jobs in every state class and quits; and of the CLI's real handler under interrupt / terminate events",
-         "7 job state classes (and all 49 pairs at the default schedule) x {abort, graceful 0, graceful 2} x child reaction x quit in the creating action or later; CLI: INT / TERM / INT batched with a change / mapped INT x stop-signal x stop-timeout: main ends at the next quiescent instant (abort) or by t_q + pending grace + grace + 1 tick (graceful), with Ok, no simulated process left unreaped/undropped, no late spawns; the CLI sends the configured stop signal first and never kills before the stop timeout.", "7 C08", DEX_NOTE + " Real process groups / grandchildren are outside the simulation (DESIGN.md section 10)."),
+         "8 job state classes, among them a job re-created under the id of a deleted one (and all 64 pairs at the default schedule) x {abort, graceful 0, graceful 2} x child reaction x quit in the creating action or later; CLI: INT / TERM / INT batched with a change / mapped INT x stop-signal x stop-timeout: main ends at the next quiescent instant (abort) or by t_q + pending grace + grace + 1 tick (graceful), with Ok, no simulated process left unreaped/undropped, no late spawns; the CLI sends the configured stop signal first and never kills before the stop timeout.", "7 C08", DEX_NOTE + " Real process groups / grandchildren are outside the simulation (DESIGN.md section 10)."),
  "C12": ("enum/h-cli", "complete enumeration of the 64 ignore-flag combinations x explicit option sets through the CLI's real normalisation and filterer construction, against the documented source-attribution table",
          "All 64 combinations of --no-vcs-ignore / --no-project-ignore / --no-global-ignore / --no-default-ignore / --no-discover-ignore / --ignore-nothing x {none, each of --ignore, --ignore-file, --filter, --filter-file, --exts, --fs-events, all together} on a fixture with one probe file per ignore source: explicit options decide as without flags; each flag removes exactly the sources it names.", "7 C12", ENUM_NOTE),
  "C14": ("enum/h-enum", "bounded-exhaustive enumeration of directory trees, ignore-file placements, VCS markers, watch lists and directory listing orders against a reference walk",
-         "19 tree shapes x every sibling creation order (checked to change the listing) x {none, .git} x <=2 placed ignore files over 9 slot kinds x 8 contents x explicit watch in {none, subdir, file}: from_origin returns exactly the (path, applies_in, applies_to) set of the reference walk, nothing from ignored or VCS-metadata subtrees, no errors, identical across listing orders.", "7 C14", ENUM_NOTE),
+         "19 tree shapes x every sibling creation order (checked to change the listing) x {none, .git} x <=2 placed ignore files over 9 slot kinds x 8 contents x explicit watch in {none, subdir, file} (ignore / re-include pairs of files also together with every directory watch): from_origin returns exactly the (path, applies_in, applies_to) set of the reference walk, nothing from ignored or VCS-metadata subtrees, no errors, identical across listing orders.", "7 C14", ENUM_NOTE),
  "C18": ("enum/h-enum", "bounded-exhaustive enumeration of argument vectors and shell descriptions, inspected without a process and spawned for real with an argv-dumping helper",
-         "All argument vectors of length <=3 over 12 hostile tokens for Exec, all shell option / program-option / extra-argument shapes, x {plain, grouped, session}; the CLI's interpret_command_args over 7 shell modes; real spawns through a Job report argv bytes, pgid, sid, cwd and env set by sync and async spawn hooks: byte equality and placement as documented.", "7 C18", ENUM_NOTE),
+         "All argument vectors of length <=3 over 12 hostile tokens for Exec, all shell option / program-option / extra-argument shapes, x {plain, grouped, session}; the CLI's interpret_command_args over 7 shell modes; real spawns through a Job report argv bytes, pgid, sid, cwd and env set by sync and async spawn hooks — on every replacement path and with hook changes queued around a start or restart: byte equality and placement as documented.", "7 C18", ENUM_NOTE),
  "C19": ("enum/h-enum", "complete enumeration of signal spellings, numbers and wait statuses against the documented tables",
          "Every valid signal number x {short, SIG-prefixed, number} x {lower, upper, mixed}, all Windows names, all exit codes 0..255, all terminating signals x core bit, --map-signal over the same spellings.", "7 C19", ENUM_NOTE),
  "C20": ("enum/h-enum", "bounded-exhaustive enumeration of directory chains and marker placements against the documented marker table",
-         "Chains of depth <=3 on tmpfs; 52 marker names + 6 decoys x {file, directory, FIFO, dangling symlink, symlink to a directory} x every level, all pairs in one directory, every start depth; all 22 project types: origins() = marked levels, types() = marker table, every type exactly one of VCS / software suite.", "7 C20", ENUM_NOTE),
+         "Chains of depth <=3 on tmpfs; 52 marker names + 6 decoys x {file, directory, FIFO, dangling symlink, symlink to a directory} x every level, all pairs in one directory, every start depth; all 22 project types: origins() = marked levels, types() = marker table, every type exactly one of VCS / software suite; answers after a marker was replaced equal those for a fresh directory.", "7 C20", ENUM_NOTE),
 }
 
 NOT_YET = {}
